@@ -1152,6 +1152,51 @@ def loaderOf (ext : Str) : Option Fmt :=
 def loadContent (expand : Str → Str) (useEnv : Bool) (content : Str) : Str :=
   if useEnv then expand content else content
 
+/-! ### `buildStructFieldsInfo` WITH its merging (`addOrMergeFields`, `mergeFields`), round 5c
+
+`infoFields` lists the flattened fields; the code adds them one after the other into a map and, when a lower-cased key
+is already there, MERGES (two struct-typed fields under one key whose children are disjoint) or reports a conflict
+(a map child, a leaf on either side, a repeated grand-child).  `none` = `newConflictKeyError`.  Nested levels are built
+by `infoField` / `infoOf` (their own conflicts: `fieldsConflict`). -/
+
+def IM.isEmpty : IM → Bool
+  | .nil => true
+  | _ => false
+
+def IM.set : IM → Str → Info → IM
+  | .nil, _, _ => .nil
+  | .cons k i t, q, n => if k = q then .cons k n t else .cons k i (t.set q n)
+
+/-- the loop of `mergeFields`: every new child must be absent. -/
+def mergeChildren (prev : IM) : IM → Option IM
+  | .nil => some prev
+  | .cons k i t => if (prev.get? k).isSome then none else mergeChildren (prev.append (.cons k i .nil)) t
+
+/-- `mergeFields(prev, children)`; `none` = `newConflictKeyError`. -/
+def mergeFieldsM (prev : Info) (children : IM) : Option Info :=
+  match prev with
+  | .node pc => if pc.isEmpty || children.isEmpty then none else (mergeChildren pc children).map .node
+  | .mapOf _ => none
+
+/-- `addOrMergeFields(info, key, child)`. -/
+def addOrMerge (info : IM) (key : Str) (child : Info) : Option IM :=
+  match info.get? key with
+  | some prev =>
+    match child with
+    | .mapOf _ => none
+    | .node cc => (mergeFieldsM prev cc).map (info.set key)
+  | none => some (info.append (.cons key child .nil))
+
+/-- `buildStructFieldsInfo`: the (flattened) fields added one after the other. -/
+def addAll : IM → IM → Option IM
+  | acc, .nil => some acc
+  | acc, .cons k i t =>
+    match addOrMerge acc k i with
+    | none => none
+    | some acc' => addAll acc' t
+
+def infoFieldsM (fs : Fields) : Option IM := addAll .nil (infoFields fs)
+
 /-! ### the decisions of the unmarshaller's dispatch functions (round 5c)
 
 The routing that `unmarshalStruct` / `withValue` / `withoutValue` implement, as first-order decision functions; `Tie.lean`
